@@ -1541,6 +1541,14 @@ impl Parser {
                 }
             }
             TokenEnum::LeftBracket => {
+                if only_literal_children {
+                    // `[]` is the value of an array type of size 0 (only as a literal, where the
+                    // element type is known from the expected type)
+                    if let Some(meta_end) = self.next_matches(&TokenEnum::RightBracket) {
+                        let meta = join_meta(meta, meta_end);
+                        return Ok(Expr::untyped(ExprEnum::ArrayLiteral(vec![]), meta));
+                    }
+                }
                 let elem = if only_literal_children {
                     self.parse_literal_recusively()?
                 } else {
